@@ -312,6 +312,7 @@ ByteArray File::firstBytes(int n)
 		return data;
 	}
 	data.resize(read(&data[0], n));
+	close(); // opened here: leave the object as it was, so that it can still open itself for writing
 	return data;
 }
 
